@@ -3,7 +3,7 @@ from .. import terms as tm
 from ..terms import T
 from .. import rules
 from ..spec import P
-from . import c13, c14
+from . import c06, c13, c14
 
 EXPLANATION = """
 [DECISION-TABLE] script.utils.scriptpubkey is evaluated over the input classes {valid SEC1 key, Base58Check with version
@@ -107,3 +107,6 @@ def run(ctx):
     R.check("C08.2", "TABLE", fa, "unknown network refused", kind == "raise", "unknown network maps to %s" % tm.show(val)[:80])
     # ---- malformed public keys
     c14.check_point_decoder(ctx, "C08.4")
+    # ---- the segwit encoder / validity tables the witness addresses go through (shared with C06)
+    c06.check_encoder(ctx, "C08.5")
+    c06.check_valid_segwit(ctx, "C08.5")
